@@ -9,6 +9,13 @@ from typing import Any, Dict, Optional
 from .core import Index, dotted
 
 
+class FuncRef:
+    """a function of the analysed program used as a value"""
+
+    def __init__(self, qualname: str):
+        self.qualname = qualname
+
+
 class Unfoldable(Exception):
     pass
 
@@ -135,6 +142,8 @@ class Folder:
                     if m in self.idx.classes and n in self.idx.classes[m].class_attrs:
                         c = self.idx.classes[m]
                         return self._e(c.unit.modname, c.class_attrs[n], {}, c, depth + 1)
+                if r in self.idx.functions:
+                    return FuncRef(r)  # a function or method used as a value (`f = Class.helper` ... `f(x)`)
             raise Unfoldable(f"attribute {ast.unparse(e)}")
         if isinstance(e, ast.BinOp):
             l, r = self._e(modname, e.left, env, cls, depth), self._e(modname, e.right, env, cls, depth)
@@ -210,6 +219,8 @@ class Folder:
                     recv = None
                 if isinstance(recv, dict):
                     return recv.get(*args)
+            if isinstance(fn, ast.Name) and isinstance(env.get(fn.id), FuncRef):
+                return self._call(self.idx.functions[env[fn.id].qualname], args, kwargs, depth + 1)
             # self.method() within a class
             if isinstance(fn, ast.Attribute) and isinstance(fn.value, ast.Name) and fn.value.id in ("self", "cls") and cls is not None:
                 m = self.idx.find_method(cls.qualname, fn.attr)
